@@ -452,6 +452,7 @@ class CfgWorld:
             if self.opts['write_user_skills']: r.append({'target': 'codex', 'root': self.codex_home + '/skills', 'scan_extras': True})
         if self.claude and flt in (None, 'claude_code'):
             r.append({'target': 'claude_code', 'root': self.claude_cmds, 'scan_extras': True})
+        r.sort(key=lambda x: (x['target'], x['root'].split('/')))      # targets::dedup_roots: sorted by (target, path)
         return r
     def desired(self, flt):
         D = []
